@@ -56,7 +56,7 @@ func callsNamed(in ssa.Instruction, name string) bool {
 func c16(c *core.Check) {
 	p := c.Prog
 	c.Explain = "Structural necessary conditions of CSS 2.1 Appendix E painting order, decided on SSA: the steps of drawStackingContext occur in the Appendix E order on every path (must-precede on the reads of the context's lists and on the drawing calls), background precedes border wherever both are drawn, outlines come after the content; child contexts are partitioned by the sign of z-index and the negative/positive lists are sorted by a stable sort with a strict comparison on z-index; a box starts a stacking context exactly when positioned with non-auto z-index, opacity<1, transformed or overflow!=visible. Of the dispatch of boxes into the painting lists, two clauses are decided: a positioned box is never put on the float layer, and the place of a box in its list is fixed before its descendants are dispatched (tree order); which list a non-positioned, non-floated box goes to is not decided."
-	rArgs := c.Rule("R4", "no call passes two same-typed arguments under each other's parameter names (swapped arguments): every pair of arguments named after the callee's parameters is aligned with them", 12)
+	rArgs := c.Rule("R4", "no call passes two same-typed arguments under each other's parameter names (swapped arguments): every pair of arguments named after the callee's parameters is aligned with them", 17)
 	argNameRule(c, rArgs, "html/document", map[string]bool{"stacking.go": true, "draw.go": true}, 19)
 
 	c16Dispatch(c)
@@ -193,7 +193,7 @@ func c16(c *core.Check) {
 	}
 
 	// background before border wherever both are drawn in a function of the package
-	r1b := c.Rule("R1b", "in every function of html/document that draws both, a box's background is drawn before its border on every path", 2)
+	r1b := c.Rule("R1b", "in every function of html/document that draws both, a box's background is drawn before its border on every path", 4)
 	for _, root := range p.FuncsOfPkg("html/document") {
 		hasBg, hasBo := false, false
 		core.Instrs(root, func(in ssa.Instruction) {
